@@ -43,7 +43,13 @@ func genHeaderMap(g *hx.Gen, keys []string, allowCollision bool) map[string]stri
 				continue
 			}
 		}
-		m[k] = genValue(g, 1+g.Intn(12))
+		// configured values travel frpc -> frps as JSON: keep them valid UTF-8 (ASCII)
+		m[k] = strings.ToValidUTF8(strings.Map(func(r rune) rune {
+			if r >= 0x80 {
+				return 'u'
+			}
+			return r
+		}, strings.ToValidUTF8(genValue(g, 1+g.Intn(12)), "u")), "u")
 	}
 	return m
 }
